@@ -177,7 +177,7 @@ def save_crash(ctx, driver, rng, loop, tmpdir):
         # write the old file for real (no crash), read its bytes
         c_old = loop.run_until_complete(build(old))
         v0 = VFS({})
-        with mock.patch.object(ctlmod, "open", v0.open, create=True), mock.patch.object(ctlmod.os, "replace", v0.replace), mock.patch.object(ctlmod.os, "fsync", v0.fsync):
+        with mock.patch.object(ctlmod, "open", v0.open, create=True), mock.patch.object(os, "replace", v0.replace), mock.patch.object(os, "fsync", v0.fsync):
             c_old.save_data(target)
         old_bytes = v0.files.get(target)
         if old_bytes is None:
@@ -186,7 +186,7 @@ def save_crash(ctx, driver, rng, loop, tmpdir):
         # now the save under test, recorded
         c_new = loop.run_until_complete(build(new))
         v = VFS({target: old_bytes})
-        with mock.patch.object(ctlmod, "open", v.open, create=True), mock.patch.object(ctlmod.os, "replace", v.replace), mock.patch.object(ctlmod.os, "fsync", v.fsync):
+        with mock.patch.object(ctlmod, "open", v.open, create=True), mock.patch.object(os, "replace", v.replace), mock.patch.object(os, "fsync", v.fsync):
             c_new.save_data(target)
         new_bytes = v.files[target]
         shape = tuple((op[0], "tmp" if len(op) > 1 and op[1] != target else "target") for op in v.ops if op[0] in ("open", "write", "replace"))
